@@ -7,6 +7,7 @@ import (
 	"math/big"
 	"sort"
 	"strings"
+	"sync"
 )
 
 type SortKind int
@@ -27,8 +28,11 @@ type Sort struct {
 }
 
 var sortTab = map[string]*Sort{}
+var sortMu sync.Mutex
 
 func internSort(s Sort) *Sort {
+	sortMu.Lock()
+	defer sortMu.Unlock()
 	switch s.K {
 	case KBool:
 		s.str = "Bool"
